@@ -239,7 +239,7 @@ def finalize_violation(run, pool, job, res, known):
         # history-independence conflict: the replay is the PAIR of histories; verified in fresh interpreters
         rdir = replay_dir()
         os.makedirs(rdir, exist_ok=True)
-        tag = str(job.get("run_seed")).replace(":", "_").replace("+", "_")[:80]
+        tag = "".join(ch if ch.isalnum() or ch in "-_.=" else "_" for ch in str(job.get("run_seed")))[:80]
         path = os.path.join(rdir, "%s-%s-pair.json" % (run.prop, tag))
         key = viol["detail"]["call"]
         for p in res["pair"]:
@@ -272,7 +272,7 @@ def finalize_violation(run, pool, job, res, known):
     rdir = replay_dir()
     os.makedirs(rdir, exist_ok=True)
     dg = hashlib.sha1(json.dumps(prog, sort_keys=True).encode()).hexdigest()[:10]
-    tag = str(job.get("run_seed", job.get("id"))).replace(":", "_").replace("+", "_").replace("/", "_")[:80]
+    tag = "".join(ch if ch.isalnum() or ch in "-_.=" else "_" for ch in str(job.get("run_seed", job.get("id"))))[:80]
     path = os.path.join(rdir, "%s-%s-%s.json" % (run.prop, tag, dg))
     rec = {"property": run.prop, "verif_seed": run.seed, "run_seed": job.get("run_seed"), "tier": run.tier,
            "job_kind": job.get("kind"), "program": prog, "violation": viol,
